@@ -111,8 +111,12 @@ pub fn main() -> i32 {
         }
         "gen-mates" => {
             let n: usize = args.rest.first().and_then(|x| x.parse().ok()).unwrap_or(100);
-            let minor = args.rest.get(1).is_some_and(|x| x == "minor");
-            for (fen, label) in mates::generate(n, if minor { 0x5EED_C12B } else { 0x5EED_C12 }, minor) {
+            let profile: u8 = match args.rest.get(1).map(String::as_str) {
+                Some("minor") => 1,
+                Some("heavy") => 2,
+                _ => 0,
+            };
+            for (fen, label) in mates::generate(n, [0x5EED_C12, 0x5EED_C12B, 0x5EED_C12C][profile as usize], profile) {
                 println!("{label}\t{fen}");
             }
             0
